@@ -64,6 +64,8 @@ pub fn check_view(view: &dyn ShapeDyn, slice_addr: usize, n: usize, expect: Opti
                 let k = node.desc().kind();
                 if p.is_empty != (p.len == 0) {
                     incons = Some((k, format!("is_empty()={} but len()={}", p.is_empty, p.len)));
+                } else if p.iter_count.map_or(false, |c| c != p.len) {
+                    incons = Some((k, format!("iter().count()={:?} but len()={}", p.iter_count, p.len)));
                 } else if let (Some(cap), Some(full)) = (p.cap, p.is_full) {
                     if p.len <= cap && full != (p.len == cap) {
                         incons = Some((k, format!("is_full()={} but len()={} capacity()={}", full, p.len, cap)));
